@@ -205,6 +205,8 @@ class SE:
             raise Unsupported('attribute %s of enum' % name)
         if k == 'module':
             return cont(st, ('module', v[1] + '.' + name))
+        if k == 'obj' and hasattr(self.spec, 'obj_attr'):
+            return self.spec.obj_attr(self, st, v, name, cont)
         if k != 'ref':
             raise Unsupported('attribute %s of %s' % (name, k))
         if hasattr(self.spec, 'getattr_hook'):
@@ -464,6 +466,11 @@ class SE:
 
     def getitem(self, st, cv, i, cont):
         c = self.ctx
+        if cv[0] == 'policies':
+            if i[0] != 'ref': raise Unsupported('policy name of kind %s' % i[0])
+            pn = self.spec.policy_names(self)
+            known = Or([self.spec.sv(i[1]) == self.spec.sv(x) for x in pn.values()])
+            return self.branch(st, known, lambda s: cont(s, ('policycls', i[1])), lambda s: self.exit(s, 'KeyError'))
         if cv[0] == 'hdict':
             k = self.spec.dict_key(self, st, i); d = cv[1]
             return self.branch(st, st.heap['dk'][d][k], lambda s: cont(s, self.spec.dict_value(self, s, s.heap['dv'][d][k], cv)),
@@ -543,6 +550,12 @@ class SE:
             return cont(st, self.none())
         if k == 'str':
             return cont(st, ('str', '?'))
+        if k == 'policycls':
+            return self.spec.policy_call(self, st, recv, name, args, kw, cont)
+        if k == 'clsobj':
+            fi = self.ct.find_any(recv[1], name)
+            if fi is None: raise Unsupported('%s.%s' % (recv[1], name))
+            return self.call_fn(st, fi, ([recv] if fi.kind == 'classmethod' else []) + args, cont, kw)
         if k == 'obj':
             fi = self.ct.find_any(recv[1], name)
             if fi is None: raise Unsupported('method %s of %s' % (name, recv[1]))
@@ -830,6 +843,7 @@ class SE:
         if cv[0] == 'hdict':
             k = self.spec.dict_key(self, st, i); d = cv[1]; h = st.heap
             val = v[1] if v[0] in ('ref', 'hdict') else self.as_ref(st, v)
+            if hasattr(self.spec, 'on_dict_store'): self.spec.on_dict_store(self, st, cv, k, v)
             h['dk'] = Store(h['dk'], d, Store(h['dk'][d], k, True))
             h['dv'] = Store(h['dv'], d, Store(h['dv'][d], k, val))
             return nxt(st)
